@@ -215,6 +215,25 @@ func c25Exec(ops []string) []string {
 			outs = append(outs, es.newRecs())
 			es.rec.Release(10)
 			es = nil
+		case len(f) == 4 && f[0] == "esrace":
+			fl, nm := unhex(f[1]), unhex(f[3])
+			e := c25Event(f[2], string(nm), 1)
+			if fl == nil || nm == nil || e == nil {
+				outs = append(outs, "bad-op")
+				continue
+			}
+			st := agent.VerifNewEventStream(agent.NewVerifRecorder(false), string(fl), 5)
+			st.Stop()
+			res := "ok"
+			func() {
+				defer func() {
+					if r := recover(); r != nil {
+						res = "panicked"
+					}
+				}()
+				st.HandleEvent(e)
+			}()
+			outs = append(outs, res)
 		case len(f) == 4 && f[0] == "qs":
 			seq, e1 := strconv.ParseUint(f[1], 10, 64)
 			ms, e2 := strconv.Atoi(f[3])
@@ -369,7 +388,13 @@ func c25E2EStream(filter string, seq uint64, names []string) (string, int) {
 	if err != nil {
 		return "ERR dial", -1
 	}
-	defer c.c.Close()
+	base := env.agent.VerifEventHandlerCount()
+	defer func() {
+		// the stream must be deregistered before anything else fires events: an event dispatched
+		// while the agent tears the stream down is the recorded finding event-after-stop-panic
+		c.c.Close()
+		c25WaitFor(func() bool { return env.agent.VerifEventHandlerCount() <= base })
+	}()
 	c.send("M"+mKV("Command", mS("handshake"))+","+mKV("Seq", "i1"), "M"+mKV("Version", "i1"),
 		"M"+mKV("Command", mS("stream"))+","+mKV("Seq", "i"+strconv.FormatUint(seq, 10)), "M"+mKV("Type", mS(filter+",user:fin")))
 	for i := 0; i < 2; i++ {
@@ -591,6 +616,9 @@ func c25Gen(rng *rand.Rand, tier string) []Case {
 		ops = append(ops, "rel 5", fmt.Sprintf("ev user %s %d", hexs("a"), n+1), "stop")
 		out = append(out, Case{ID: fmt.Sprintf("over%d", i), Ops: ops, Nontrivial: true, Tags: []string{"event-overflow"}})
 	}
+	// the order Stop(); HandleEvent() that the agent's eventLoop can produce (recorded finding when the event matches)
+	out = append(out, Case{ID: "stop-then-event", Ops: []string{"esrace " + hexs("*") + " user " + hexs("deploy"), "esrace " + hexs("user:a") + " user " + hexs("b"),
+		"esrace " + hexs("member-join") + " member-join -"}, Nontrivial: true, Tags: []string{"finding"}})
 	// query stream over a hand-fed QueryResponse: deliveries, close and deadline race freely
 	for i := 0; i < nQ; i++ {
 		ack := rng.Intn(3) != 0
